@@ -450,10 +450,41 @@ func c20Actions(c *c20m) map[string]func(*rapid.T) {
 	return acts
 }
 
+// c20GenAge draws the age of the store: the badger version its first commit gets. Half of the cases run on
+// a young store (as every test does). The others start somewhere inside a decade (1 to 10 digits), or just
+// below a power of ten or of 256, so that the versions - and the backup cursor that is made of them - grow by
+// a digit or a byte while the case runs.
+func c20GenAge(t *rapid.T) uint64 {
+	if rapid.IntRange(0, 1).Draw(t, "aged") == 0 {
+		return 0
+	}
+	pow := func(b uint64, k int) uint64 {
+		v := uint64(1)
+		for ; k > 0; k-- {
+			v *= b
+		}
+		return v
+	}
+	switch rapid.IntRange(0, 3).Draw(t, "ageKind") {
+	case 0:
+		return pow(10, rapid.IntRange(2, 10).Draw(t, "ageDec")) - uint64(rapid.IntRange(1, 60).Draw(t, "ageBelow"))
+	case 1:
+		return pow(256, rapid.IntRange(1, 5).Draw(t, "ageByte")) - uint64(rapid.IntRange(1, 60).Draw(t, "ageBelow"))
+	default:
+		k := rapid.IntRange(2, 9).Draw(t, "ageDigits")
+		return uint64(rapid.IntRange(100, 999).Draw(t, "ageMantissa")) * pow(10, k) / 100
+	}
+}
+
 func c20Run(t *testing.T, rsync bool) {
 	rapid.Check(t, func(t *rapid.T) {
-		g := newGM(t, []string{"a", "b"}, kit.GenCfg{MaxRefs: 2})
+		age := c20GenAge(t)
+		g := newGMfo(t, t, []string{"a", "b"}, kit.GenCfg{MaxRefs: 2}, kit.HubOpts{Age: age})
 		defer g.close()
+		if age > 0 {
+			g.cls["aged-store"] = true
+			g.cls[fmt.Sprintf("store-version-%d-digits", len(fmt.Sprint(age)))] = true
+		}
 		c := newC20(g, rsync)
 		defer c.close()
 		defer func() {
